@@ -26,6 +26,7 @@ import DSymVerif.Proofs.EuclidicityTableReach
 import DSymVerif.Proofs.EuclidicityString
 import DSymVerif.Spec.C17
 import DSymVerif.Props.C15
+import DSymVerif.Proofs.TGroupIso
 
 namespace DSymVerif.C17
 open DSymVerif DSymVerif.Euc
@@ -288,7 +289,11 @@ theorem yes_cover_group_is_Z3_presented (s : DS.DSymData) (f : Facts) (hf : Fact
       orbifold group of the oriented cover (the stabiliser of row 0 of the monodromy action), and to
       the presented group `⟨gens | srels⟩` whose **abelian invariants are `[0, 0, 0]`** (model value
       of `abelian_invariants` = determinantal-divisor definition); its **abelianisation is ℤ³**
-      (`Abelianization (TGroup cov) ≃* Multiplicative (Fin 3 → ℤ)`).
+      (`Abelianization (TGroup cov) ≃* Multiplicative (Fin 3 → ℤ)`);
+    * and this group **embeds into the orbifold group of `s` ITSELF with finite index = the
+      number of sheets of `cov` over `s`** (`Φ : TGroup cov →* TGroup s` injective,
+      `index · |s| = |cov|`; C15 `ptc_cover_group_in_input_group`): `s` is finitely covered by a
+      branch-free oriented symbol whose group is a finite-index subgroup of π₁(s) with H₁ = ℤ³.
     The two facts behind `simplify` (it succeeded; canonical key of the cubic tiling) are part of
     `decide_yes_iff` but have no model. -/
 theorem yes_certificate_sound (s : DS.DSymData) (f : Facts) (hf : FactsOf s f)
@@ -314,7 +319,9 @@ theorem yes_certificate_sound (s : DS.DSymData) (f : Facts) (hf : FactsOf s f)
         Nonempty (FGP.TGroup cov ≃* PresentedGroup (CosetP.relSet gens.length srels)) ∧
         Inv.abelianInvariants gens.length srels = .ok [0, 0, 0] ∧
         SpecC14.expected gens.length srels = [0, 0, 0] ∧
-        Nonempty (Abelianization (FGP.TGroup cov) ≃* Multiplicative (Fin 3 → ℤ)) := by
+        Nonempty (Abelianization (FGP.TGroup cov) ≃* Multiplicative (Fin 3 → ℤ)) ∧
+        ∃ Φ : FGP.TGroup cov →* FGP.TGroup s, Function.Injective Φ ∧
+          Φ.range.index * s.size = cov.size ∧ Φ.range.index ≠ 0 := by
   obtain ⟨h3, h4, inv, cov, hinv, hmem, hw, hr, ho, hcf, _⟩ :=
     yes_carries_certificate s f hf hs.toValidTables hsz hyes
   obtain ⟨_, hb, hv, hc, _⟩ := C15.ptc_result_is_branchfree s cov hs hsz ho
@@ -323,7 +330,8 @@ theorem yes_certificate_sound (s : DS.DSymData) (f : Facts) (hf : FactsOf s f)
   exact ⟨h3, h4, inv, cov, hinv, hmem, hw, hr, ho, hcf,
     C15.ptc_result_is_oriented s cov hs.toValidTables hsz ho, hv, hc, hb,
     oc, fg, t, hsoc, hdim, hfg, hV, gens, srels, hoc, hsize, hidx, heK, heP, hai, hexp,
-    C15.ptc_cover_has_H1_Z3 s cov hs hsz hconn ho⟩
+    C15.ptc_cover_has_H1_Z3 s cov hs hsz hconn ho,
+    C15.ptc_cover_group_in_input_group s cov hs hsz hconn ho⟩
 
 /-- **prefix_total** — totality of everything the models compute.  For a valid D-symbol in the
     domain of `is_euclidean` (dimension 3, complete, every adjacent branching number `≤ 6` and
@@ -355,6 +363,58 @@ theorem prefix_total (s : DS.DSymData) (hs : DS.ValidSym s) (hsz : 1 ≤ s.size)
       | some c => exact ⟨_, rfl⟩
   · exact ⟨{ (default : Facts) with invInTable := inInvariantTable inv, coverFound := o.isSome },
       inv, hinv, rfl, fun _ => ⟨o, ho, rfl⟩⟩
+
+/-- **invariant_group_part_iso_invariant** — the group half of `orbifold_invariant` under
+    renumbering.  Let `a`, `b` be valid CONNECTED symbols (dimension ≥ 1) related by mutually
+    inverse morphisms `f`, `g` (maps of the chambers commuting with every operation and preserving
+    all degrees: every renumbering is one).  Then the models of `fundamental_group` return
+    presentations of ISOMORPHIC groups (C09 `returned_group_is_textbook_group`, invariance of the
+    textbook group under symbol isomorphism), and the lists `abelian_invariants` returns for them —
+    the `invars` part of the invariant string — are the invariant factors of isomorphic abelian
+    groups: `Π ZMod d` over the one list is isomorphic to `Π ZMod d` over the other (C14
+    `abelianization_is_returned_list`).  (That two ascending lists of invariant factors of
+    isomorphic groups are EQUAL is the uniqueness half of the structure theorem, not formalised;
+    the graph half of the invariant — node labels and edge count after `compress_graph` and
+    `sort_nodes` — is not treated.) -/
+theorem invariant_group_part_iso_invariant (a b : DS.DSymData) (f g : Nat → Nat)
+    (F : CoversP.SymMor a b f) (G : CoversP.SymMor b a g)
+    (hgf : ∀ x, 1 ≤ x → x ≤ a.size → g (f x) = x) (hfg : ∀ y, 1 ≤ y → y ≤ b.size → f (g y) = y)
+    (hsza : 1 ≤ a.size) (hszb : 1 ≤ b.size) (hdim : 1 ≤ a.dim)
+    (hca : a.view.isConnected = true) (hcb : b.view.isConnected = true) :
+    ∃ fa fb, FG.fundamentalGroup a = .ok fa ∧ FG.fundamentalGroup b = .ok fb ∧
+      Nonempty (FGP.MGroup fa ≃* FGP.MGroup fb) ∧
+      ∀ oa ob, Inv.abelianInvariants fa.nrGenerators fa.relators = .ok oa →
+        Inv.abelianInvariants fb.nrGenerators fb.relators = .ok ob →
+        Nonempty (Multiplicative (Inv.ZL oa) ≃* Multiplicative (Inv.ZL ob)) := by
+  have hdimb : 1 ≤ b.dim := by rw [← F.dim]; exact hdim
+  obtain ⟨fa, hfa, ⟨ea⟩⟩ := C09.returned_group_is_textbook_group a F.ha hdim
+  obtain ⟨fb, hfb, ⟨eb⟩⟩ := C09.returned_group_is_textbook_group b F.hb hdimb
+  obtain ⟨eT⟩ := CoversP.tgroup_iso_of_symIso F G hgf hfg hsza hszb hca hcb
+  have eM : FGP.MGroup fa ≃* FGP.MGroup fb := (ea.trans eT).trans eb.symm
+  refine ⟨fa, fb, hfa, hfb, ⟨eM⟩, ?_⟩
+  intro oa ob hoa hob
+  have hla := (FGP.fundamentalGroup_letters a fa hfa).1
+  have hlb := (FGP.fundamentalGroup_letters b fb hfb).1
+  -- C09's presentation ≃ C11's presentation
+  have ePa : PresentedGroup (CosetP.relSet fa.nrGenerators fa.relators) ≃* FGP.MGroup fa :=
+    MonoidHom.toMulEquiv (D3.upHom hla) (D3.downHom fa.nrGenerators fa.relators)
+      (D3.down_up hla) (D3.up_down hla)
+  have ePb : PresentedGroup (CosetP.relSet fb.nrGenerators fb.relators) ≃* FGP.MGroup fb :=
+    MonoidHom.toMulEquiv (D3.upHom hlb) (D3.downHom fb.nrGenerators fb.relators)
+      (D3.down_up hlb) (D3.up_down hlb)
+  have hina : ∀ w ∈ fa.relators, ∀ x ∈ w, Inv.InRange fa.nrGenerators x := by
+    intro w hw x hx
+    have := LowIndexP.mem_allGensOf.mp (hla w hw x hx)
+    unfold Inv.InRange
+    omega
+  have hinb : ∀ w ∈ fb.relators, ∀ x ∈ w, Inv.InRange fb.nrGenerators x := by
+    intro w hw x hx
+    have := LowIndexP.mem_allGensOf.mp (hlb w hw x hx)
+    unfold Inv.InRange
+    omega
+  obtain ⟨za⟩ := C14.abelianization_is_returned_list fa.nrGenerators fa.relators oa hina hoa
+  obtain ⟨zb⟩ := C14.abelianization_is_returned_list fb.nrGenerators fb.relators ob hinb hob
+  exact ⟨za.symm.trans ((MulEquiv.abelianizationCongr ((ePa.trans eM).trans ePb.symm)).trans zb)⟩
 
 /-! ### open (not theorems): the statements, for the record -/
 
